@@ -214,6 +214,25 @@ _EXTRA5 = {
     'C19': 'counted words are not transformed after counting; replace_pair_in_word copies or merges every symbol (left to right, non-overlapping), replace_pair records (idx, old, new, freq) and updates vocab[idx]',
     'C20': 'the top-k selection compares whole heap entries; edit distance recurrence and divisor (R-C12-1/2 re-evaluated)',
 }
+_EXTRA6 = {
+    'C02': 'train_bpe statistics guards and word rewriting (R-C19-5, R-C19-8 re-evaluated)',
+    'C03': 'the merge table is cut by id only (no filter on token bytes)',
+    'C04': 'id_to_token returns table bytes without a text round trip; loop-form Vocab::build writes the reverse entry only for new tokens',
+    'C05': 'Pipe::new does not loop or wait on worker progress',
+    'C06': 'no capacity hint derived from the batch limit',
+    'C07': 'generators / lengths / finished are stored per source of the list as given',
+    'C08': 'skip, seed, (rank, world_size) and limit.unwrap_or(MAX) are stored as given',
+    'C09': 'the consumer is a single blocking receive (R-C05-4 re-evaluated)',
+    'C11': 'clean() segments its whole input once',
+    'C13': 'every sequence adds an entry to the list whose length is the divisor of the sequence average',
+    'C15': 'bounds-checked indexing in corrupt.rs is a WeightedIndex sample or guarded by the length',
+    'C17': 'each padded matrix gets the pad value of its own field; utils::accumulate_with is the prefix-sum recurrence the offset assertion is checked against',
+    'C18': 'every cell of the LCS table is computed',
+    'C19': 'the old-word next pair is skipped between two adjacent occurrences; corpus reader has no truncating adaptor; unicode::normalize always normalises; text::clean and the CharString primitive (R-C11-1/2/6 re-evaluated)',
+    'C20': 'unicode::normalize always normalises (identity only under IsNormalized::Yes); text::clean and the CharString primitive (R-C11-1/2/6 re-evaluated); split_words keeps every word and every part',
+}
+for _k, _v in _EXTRA6.items():
+    _EXTRA5[_k] = (_EXTRA5[_k] + '; ' + _v) if _k in _EXTRA5 else _v
 for _k, _v in _EXTRA3.items():
     _EXTRA_DECIDES[_k] = (_EXTRA_DECIDES[_k] + '; ' + _v) if _k in _EXTRA_DECIDES else _v
 for _k, _v in _EXTRA5.items():
